@@ -458,7 +458,40 @@ pub fn judge(case: &Case, ex: &Exec) -> Vec<Violation> {
     }
     let c = match found {
         Some(c) => c,
-        None => return v, // accepted, or reported without our format: not this clause's business
+        None => {
+            // accepted, or reported without our format: not this clause's business - unless the
+            // misused name was let through to the run and the run then stops at that very statement
+            // with a report: that report is the diagnostic, and it has to name the line
+            if spec.kind == "name_misused" {
+                let (_, segs) = crate::oracle::segments(h);
+                if let Some(s) = segs.last() {
+                    let stopped_here = !s.followed && s.code.contains("zz_") && matches!(h.ended(), Some(Event::Exit(_)) | Some(Event::Return));
+                    let reports: Vec<&String> = s
+                        .events
+                        .iter()
+                        .filter_map(|e| match e {
+                            Event::Rec { origin: Origin::RunLoop, text, .. } if !text.trim().is_empty() => Some(text),
+                            _ => None,
+                        })
+                        .collect();
+                    if stopped_here && !reports.is_empty() {
+                        let all: String = reports.iter().map(|t| t.as_str()).collect::<Vec<_>>().join("");
+                        let cites: Vec<u64> = all.split('\n').filter_map(crate::oracle::cited_line).collect();
+                        let want = spec.lines.first().cloned().unwrap_or(0) as u64;
+                        if !cites.contains(&want) {
+                            v.push(Violation::new(
+                                if cites.is_empty() { format!("C16:diag_no_position{{{}}}", spec.kind) } else { format!("C16:diag_wrong_line{{{}}}", spec.kind) },
+                                format!(
+                                    "the misused name on line {} was let through to the run, which then stopped at that statement ({}) with a report that does not name the line: {:?}",
+                                    want, s.code, all.chars().take(160).collect::<String>()
+                                ),
+                            ));
+                        }
+                    }
+                }
+            }
+            return v;
+        }
     };
     let src = String::from_utf8_lossy(&case.scn.source.0).into_owned();
     let src_lines: Vec<&str> = src.split('\n').collect();
